@@ -310,8 +310,42 @@ def main():
         dis.append(f"dis{j}")
         j += 1
     out.append(f"def disamb : List (PyTy × HExpr) := {lean_list(dis)}")
+    out.append(f"def progTys : List PyTy := {lean_list(prog_types(conv))}")
     out.append("end Gen")
     sys.stdout.write("\n".join(out) + "\n")
+
+
+def prog_types(conv):
+    """Every union annotation, in each spelling it occurs in (attribute annotations, aliases, hook
+    registrations and their subterms), that structuring dispatches through a program: a registered
+    hook or a disambiguator cattrs built.  A hint for the Lean side: the kernel checks each entry's
+    program (`progOK`) and that every annotation structuring can reach is either structural or
+    listed here (`lightOK`)."""
+    acc = {}
+    seen = []
+
+    def walk(t):
+        o = typing.get_origin(t)
+        if o is typing.Union and t not in seen:
+            seen.append(t)
+        if o is not None and o is not typing.Literal:
+            for a in typing.get_args(t):
+                if a is not Ellipsis:
+                    walk(a)
+
+    for u in collect_unions(conv):
+        walk(u)
+    for ty in conv._union_struct_registry:
+        walk(ty)
+    for u in seen:
+        a = typing.get_args(u)
+        if u in conv._union_struct_registry:
+            acc.setdefault(pyty(u), None)
+        elif len(a) == 2 and type(None) in a:
+            continue
+        elif all(x is type(None) or (isinstance(x, type) and attrs.has(x)) for x in a):
+            acc.setdefault(pyty(u), None)
+    return list(acc)
 
 
 def cattrs_base_registry():
